@@ -589,6 +589,10 @@ fn run_stored(rt: &tokio::runtime::Runtime, c: &[u64]) -> Vec<u64> {
     if c.first() == Some(&2) {
         return run_report_case(rt, c).1;
     }
+    if c.first() == Some(&4) {
+        // end to end: two real nodes, real time
+        return crate::c09_e2e::run(c);
+    }
     if c.first() == Some(&3) {
         // composed: real ProtocolSets -> real bounded channel -> real TransportService
         return match crate::c08_compose::parse(c) {
@@ -711,5 +715,31 @@ pub fn main(args: &Args, c09: bool) {
     }
     for r in results.lock().unwrap().iter().flatten() {
         out.emit(&r.0, &r.1);
+    }
+    // end to end: two real nodes over loopback TCP / WebSocket, real time
+    if c09 {
+        let mut rr = Rng::new(seed ^ 0xe2e9);
+        let cases: Vec<Vec<u64>> = (0..(ncases / 8).max(2)).map(|_| crate::c09_e2e::gen(&mut rr, &[0, 0, 1])).collect();
+        let results: Arc<Mutex<Vec<Option<Vec<u64>>>>> = Arc::new(Mutex::new(vec![None; cases.len()]));
+        let next = Arc::new(std::sync::atomic::AtomicUsize::new(0));
+        let cases = Arc::new(cases);
+        let mut hs = Vec::new();
+        for _ in 0..10.min(cases.len()) {
+            let (results, next, cases) = (results.clone(), next.clone(), cases.clone());
+            hs.push(std::thread::spawn(move || loop {
+                let i = next.fetch_add(1, Ordering::SeqCst);
+                if i >= cases.len() {
+                    break;
+                }
+                let t = catch_unwind(AssertUnwindSafe(|| crate::c09_e2e::run(&cases[i]))).unwrap_or(vec![PANIC_MARK]);
+                results.lock().unwrap()[i] = Some(t);
+            }));
+        }
+        for h in hs {
+            let _ = h.join();
+        }
+        for (c, t) in cases.iter().zip(results.lock().unwrap().iter()) {
+            out.emit(c, t.as_ref().unwrap_or(&vec![PANIC_MARK]));
+        }
     }
 }
